@@ -81,7 +81,7 @@ func (h c9Hist) String() string {
 
 // ---------------------------------------------------------------- helpers
 
-func coqZ(x int) string {
+func c09CoqZ(x int) string {
 	if x < 0 {
 		return fmt.Sprintf("(%d)", x)
 	}
@@ -91,7 +91,7 @@ func coqZ(x int) string {
 func coqZList(xs []int) string {
 	parts := make([]string, len(xs))
 	for i, x := range xs {
-		parts[i] = coqZ(x)
+		parts[i] = c09CoqZ(x)
 	}
 	return "[" + strings.Join(parts, ";") + "]%Z"
 }
@@ -269,7 +269,7 @@ func (e *c9Exec) appendOp(a int, x int, prePresent bool, preLen, preCap int, chi
 	if h.derived >= 2 && h.inplace >= 1 {
 		e.nontriv = true
 	}
-	return fmt.Sprintf("OAppend %d %s %d %d", a, coqZ(x), c1, c2)
+	return fmt.Sprintf("OAppend %d %s %d %d", a, c09CoqZ(x), c1, c2)
 }
 
 func sortedInts(xs []int) []int {
@@ -448,7 +448,7 @@ func (e *c9Exec) apply(o c9Op) []string {
 		_, c1, _, _ := e.state(o.A)
 		switch o.K {
 		case "set":
-			ops = append(ops, fmt.Sprintf("OSet %d %d %s %d", o.A, o.N, coqZ(o.X), c1))
+			ops = append(ops, fmt.Sprintf("OSet %d %d %s %d", o.A, o.N, c09CoqZ(o.X), c1))
 		case "reverse":
 			ops = append(ops, fmt.Sprintf("OReverse %d %d", o.A, c1))
 		case "order":
@@ -488,7 +488,7 @@ func (e *c9Exec) apply(o c9Op) []string {
 			for _, x := range src {
 				res = append(res, x+o.X)
 			}
-			ops = append(ops, fmt.Sprintf("OMap %s %d", coqZ(o.X), o.A))
+			ops = append(ops, fmt.Sprintf("OMap %s %d", c09CoqZ(o.X), o.A))
 		case "accept":
 			l, good = e.evalList("l.accept(e->e<k)", []string{"l", "k"}, h.l, value.Int(o.X))
 			for _, x := range src {
@@ -496,7 +496,7 @@ func (e *c9Exec) apply(o c9Op) []string {
 					res = append(res, x)
 				}
 			}
-			ops = append(ops, fmt.Sprintf("OAccept %s %d", coqZ(o.X), o.A))
+			ops = append(ops, fmt.Sprintf("OAccept %s %d", c09CoqZ(o.X), o.A))
 		case "top":
 			l, good = e.evalList("l.top(n)", []string{"l", "n"}, h.l, value.Int(o.N))
 			res = append(res, src[:min(o.N, len(src))]...)
@@ -686,7 +686,7 @@ func coqEntries(m map[string]int) string {
 	ks := sortedKeys(m)
 	parts := make([]string, len(ks))
 	for i, k := range ks {
-		parts[i] = fmt.Sprintf("(%s, %s%%Z)", coqKey(k), coqZ(m[k]))
+		parts[i] = fmt.Sprintf("(%s, %s%%Z)", coqKey(k), c09CoqZ(m[k]))
 	}
 	return CoqList(parts)
 }
@@ -758,7 +758,7 @@ func (e *c9MapExec) apply(o c9Op) []string {
 		var ents []string
 		for i, k := range o.Ks {
 			content[string(k)] = o.Xs[i]
-			ents = append(ents, fmt.Sprintf("(%s, %s%%Z)", coqKey(string(k)), coqZ(o.Xs[i])))
+			ents = append(ents, fmt.Sprintf("(%s, %s%%Z)", coqKey(string(k)), c09CoqZ(o.Xs[i])))
 		}
 		if o.K == "mlit" {
 			txt, _, _ := mapLitText(o.Ks, o.Xs, false)
@@ -794,7 +794,7 @@ func (e *c9MapExec) apply(o c9Op) []string {
 		} else {
 			m, good = e.evalMap("m.put(k,v)", []string{"m", "k", "v"}, e.ms[o.A], value.String(o.Key), value.Int(o.X))
 		}
-		ops = append(ops, fmt.Sprintf("MPut %d %s %s", o.A, coqKey(o.Key), coqZ(o.X)))
+		ops = append(ops, fmt.Sprintf("MPut %d %s %s", o.A, coqKey(o.Key), c09CoqZ(o.X)))
 		_, exists := e.pure[o.A][o.Key]
 		if good == exists {
 			e.failNow("error-behaviour:put", fmt.Sprintf("put: key present=%v but the implementation ok=%v", exists, good))
@@ -840,7 +840,7 @@ func (e *c9MapExec) apply(o c9Op) []string {
 		c := copyMap(e.pure[o.A])
 		c[o.Key] = o.X
 		e.add(m, c, o.K, nil)
-		ops = append(ops, fmt.Sprintf("MReplace %d %s %s", o.A, coqKey(o.Key), coqZ(o.X)))
+		ops = append(ops, fmt.Sprintf("MReplace %d %s %s", o.A, coqKey(o.Key), c09CoqZ(o.X)))
 	case "mapv", "maccept", "meval":
 		if !ok(o.A) {
 			return nil
@@ -854,7 +854,7 @@ func (e *c9MapExec) apply(o c9Op) []string {
 			for k, v := range e.pure[o.A] {
 				c[k] = v + o.X
 			}
-			ops = append(ops, fmt.Sprintf("MMapV %d %s", o.A, coqZ(o.X)))
+			ops = append(ops, fmt.Sprintf("MMapV %d %s", o.A, c09CoqZ(o.X)))
 		case "maccept":
 			m, good = e.evalMap("m.accept((k,v)->v<d)", []string{"m", "d"}, e.ms[o.A], value.Int(o.X))
 			for k, v := range e.pure[o.A] {
@@ -862,7 +862,7 @@ func (e *c9MapExec) apply(o c9Op) []string {
 					c[k] = v
 				}
 			}
-			ops = append(ops, fmt.Sprintf("MAccept %d %s", o.A, coqZ(o.X)))
+			ops = append(ops, fmt.Sprintf("MAccept %d %s", o.A, c09CoqZ(o.X)))
 		case "meval":
 			m, good = e.evalMap("m.eval()", []string{"m"}, e.ms[o.A])
 			c = copyMap(e.pure[o.A])
